@@ -3,19 +3,72 @@ package main
 import (
 	"testing"
 
+	"github.com/tinode/chat/server/auth"
 	"github.com/tinode/chat/server/zzverif/vsched"
 )
 
 func TestVerifSmoke(t *testing.T) {
+	var log []string
 	res := vsched.Run(vsched.Config{}, func() {
-		ch := make(chan int, 1)
-		done := make(chan bool)
-		vsched.Go("a", func() { vsched.SendOp(ch).Do(1); vsched.SendOp(done).Do(true) })
-		v := vsched.Recv(ch)
-		vsched.Recv(done)
-		if v != 1 {
-			t.Fatal("bad")
+		w := vfBoot(vfBootOpts{})
+		alice := w.vfMakeUser("alice", auth.LevelAuth, map[string]any{"fn": "Alice"})
+		bob := w.vfMakeUser("bob", auth.LevelAuth, map[string]any{"fn": "Bob"})
+		ca := w.vfConnect("a")
+		cb := w.vfConnect("b")
+		vsched.Quiesce()
+		log = append(log, "login a:", itoa(ca.Login(alice)), "login b:", itoa(cb.Login(bob)))
+		code, fr := ca.Req(`{"sub":{"id":"$ID","topic":"new1","set":{"desc":{"public":{"fn":"G"}}}}}`)
+		log = append(log, "sub new:", itoa(code))
+		log = append(log, vfFramesStrings(fr)...)
+		var grp string
+		for _, f := range fr {
+			if f.Msg.Ctrl != nil && f.Msg.Ctrl.Topic != "" {
+				grp = f.Msg.Ctrl.Topic
+			}
 		}
+		code, fr = cb.Req(`{"sub":{"id":"$ID","topic":"%s"}}`, grp)
+		log = append(log, "b sub:", itoa(code))
+		code, fr = ca.Req(`{"pub":{"id":"$ID","topic":"%s","content":"hello"}}`, grp)
+		log = append(log, "a pub:", itoa(code))
+		log = append(log, vfFramesStrings(fr)...)
+		log = append(log, "b got:")
+		log = append(log, vfFramesStrings(cb.Take())...)
+		log = append(log, "topics:")
+		log = append(log, vfLoadedTopics()...)
+		log = append(log, "timers:")
+		log = append(log, vsched.ArmedTimers()...)
+		log = append(log, "goroutines:")
+		log = append(log, vsched.Goroutines()...)
+		log = append(log, "db:", w.db.Dump(true))
 	})
-	t.Logf("%+v", res)
+	for _, l := range log {
+		t.Log(l)
+	}
+	t.Logf("status=%s steps=%d choices=%d detail=%s", res.Status, res.Steps, len(res.Choices), res.Detail)
+	if res.Status != "ok" {
+		t.Fail()
+	}
+}
+
+func itoa(i int) string {
+	return string([]byte{byte('0' + i/100%10), byte('0' + i/10%10), byte('0' + i%10)})
+}
+
+func BenchmarkVerifBoot(b *testing.B) {
+	for i := 0; i < b.N; i++ {
+		vsched.Run(vsched.Config{}, func() {
+			w := vfBoot(vfBootOpts{})
+			alice := w.vfMakeUser("alice", auth.LevelAuth, nil)
+			bob := w.vfMakeUser("bob", auth.LevelAuth, nil)
+			ca := w.vfConnect("a")
+			cb := w.vfConnect("b")
+			vsched.Quiesce()
+			ca.Login(alice)
+			cb.Login(bob)
+			_, fr := ca.Req(`{"sub":{"id":"$ID","topic":"new1"}}`)
+			grp := fr[0].Msg.Ctrl.Topic
+			cb.Req(`{"sub":{"id":"$ID","topic":"%s"}}`, grp)
+			ca.Req(`{"pub":{"id":"$ID","topic":"%s","content":"hello"}}`, grp)
+		})
+	}
 }
